@@ -5,7 +5,7 @@ V = os.path.dirname(os.path.dirname(os.path.abspath(__file__)))
 pm = json.load(open(os.path.join(V, 'propmap.json')))
 na = json.load(open(os.path.join(V, 'na.json')))
 allp = [json.loads(l)['id'] for l in open(os.path.join(V, 'properties.jsonl'))]
-fixes = [l.split()[2] for l in open(os.path.join(V, 'known_findings.jsonl')) if l.startswith('# fixed:')] if os.path.exists(os.path.join(V, 'known_findings.jsonl')) else []
+fixes = []   # no hook commits: /repo carries no instrumentation (the `fix:` commits are listed in known_findings.jsonl)
 checks = []
 for pid in allp:
     if pid not in pm:
